@@ -43,6 +43,8 @@ func (s *Protocol) Invoke(ctx context.Context, req []byte) (rsp []byte) {
 	rspPackage := requestf.ResponsePacket{}
 	is := codec.NewReader(req[4:])
 	reqPackage.ReadFrom(is)
+	// known from here on, also to a handle timeout that fires before this call ends
+	current.SetPacketTypeFromContext(ctx, reqPackage.CPacketType)
 
 	recvPkgTs, ok := current.GetRecvPkgTsFromContext(ctx)
 	if !ok {
@@ -203,6 +205,8 @@ func (s *Protocol) InvokeTimeout(pkg []byte) []byte {
 	is := codec.NewReader(pkg[4:])
 	reqPackage.ReadFrom(is)
 	rspPackage.IRequestId = reqPackage.IRequestId
+	rspPackage.IVersion = reqPackage.IVersion
+	rspPackage.CPacketType = reqPackage.CPacketType
 	rspPackage.IRet = 1
 	rspPackage.SResultDesc = "server invoke timeout"
 	return s.rsp2Byte(&rspPackage)
